@@ -724,7 +724,12 @@ func (e *Engine) lemmaObligation(l *Lemma) (o *Obligation, err error) {
 			env.pkg = p
 		}
 	}
+	var reveal []string
 	for _, un := range l.Uses {
+		if strings.HasPrefix(un, "spec.") {
+			reveal = append(reveal, un)
+			continue
+		}
 		var dep *Lemma
 		for idx, x := range e.cs.Lemmas {
 			if x.Name == un {
@@ -743,5 +748,5 @@ func (e *Engine) lemmaObligation(l *Lemma) (o *Obligation, err error) {
 		st.assume(env.evalBool(dep.E))
 	}
 	goal := env.evalBool(l.E)
-	return &Obligation{Name: "lemma/" + l.Name, Func: "lemma", Kind: "lemma", Hyps: append([]*Term(nil), st.pc...), Goal: goal, Pos: l.Pos}, nil
+	return &Obligation{Name: "lemma/" + l.Name, Func: "lemma", Kind: "lemma", Hyps: append([]*Term(nil), st.pc...), Goal: goal, Pos: l.Pos, Reveal: reveal}, nil
 }
